@@ -97,8 +97,14 @@ Fixpoint cut_walk (now : Z) (st : list centry) (q : rname) (qclass : N) (k : nat
 Definition cut_lookup (now : Z) (st : list centry) (q : rname) (qclass : N) (cd : bool) : option rname :=
   if cd || (qclass =? 0)%N then None else cut_walk now st q qclass (length q).
 
+(* nxDomainCutCache.purge behind Store.Purge: every cut at q or at a non-root ancestor of q, in
+   the question's class, is removed (entries never sit at the root) *)
+Definition cut_purge (st : list centry) (q : rname) (qclass : N) : list centry :=
+  filter (fun e => negb (prefix_b (fst (fst e)) q && (snd (fst e) =? qclass)%N)) st.
+
 (* histories *)
 Inductive cutop :=
 | OpRecord (m : cutmsg) (denied zone : name) (cut_until : option Z) (ok : bool)
 | OpAdvance (s : Z)
-| OpLookup (q : name) (qclass : N) (cd : bool) (found found_wire : option name).
+| OpLookup (q : name) (qclass : N) (cd : bool) (found found_wire : option name)
+| OpPurge (q : name) (qclass : N).
